@@ -50,8 +50,9 @@ use crate::errors::{CoreResult, Diagnostics};
 use crate::io::BankOptions;
 use crate::parser::code_map::Span;
 use crate::parser::{
-    AddressingMode, Block, DataSize, Expression, Identifier, IdentifierPath, ImportArgs, Located,
-    Mnemonic, ParseTree, TextEncoding, Token, VariableType,
+    AddressingMode, Block, DataSize, Expression, ExpressionFactor, Identifier, IdentifierPath,
+    ImportArgs, InterpolatedString, InterpolatedStringItem, Located, Mnemonic, ParseTree,
+    TextEncoding, Token, VariableType,
 };
 use codespan_reporting::diagnostic::Diagnostic;
 use fs_err as fs;
@@ -1140,9 +1141,11 @@ impl CodegenContext {
             } => {
                 if let Some(loop_count) = self.evaluate_expression_as_i64(expr, true)? {
                     // If the body defines symbols, every iteration needs a scope of its own, since the symbols would be
-                    // redefined by the next iteration otherwise. (When nothing is defined all iterations can share a scope,
-                    // which is a lot cheaper for loops with many iterations.)
-                    let scope_per_iteration = defines_symbols(&block.inner);
+                    // redefined by the next iteration otherwise. That includes the '-' and '+' of the body itself and of
+                    // the blocks inside it, which only matter when something refers to them. (When nothing is defined all
+                    // iterations can share a scope, which is a lot cheaper for loops with many iterations.)
+                    let scope_per_iteration =
+                        defines_symbols(&block.inner) || uses_block_labels(&block.inner);
                     for index in 0..loop_count {
                         let iteration_scope = if scope_per_iteration {
                             Identifier::new(format!("{}_{}", loop_scope.as_str(), index))
@@ -1739,6 +1742,71 @@ fn defines_symbols(tokens: &[Token]) -> bool {
         // Braces and nested loops are scopes of their own, but those scopes live inside the current one
         Token::Braces { block, .. } | Token::Loop { block, .. } => defines_symbols(&block.inner),
         _ => false,
+    })
+}
+
+/// Does anything in here refer to the start ('-') or the end ('+') of a block?
+fn uses_block_labels(tokens: &[Token]) -> bool {
+    fn in_path(path: &IdentifierPath) -> bool {
+        path.to_string().split('.').any(|id| id == "-" || id == "+")
+    }
+    fn in_string(i: &InterpolatedString) -> bool {
+        i.items.iter().any(|item| match item {
+            InterpolatedStringItem::String(_) => false,
+            InterpolatedStringItem::IdentifierPath(path) => in_path(&path.data),
+        })
+    }
+    fn in_expr(expr: &Expression) -> bool {
+        match expr {
+            Expression::BinaryExpression(bin) => in_expr(&bin.lhs.data) || in_expr(&bin.rhs.data),
+            Expression::Factor { factor, .. } => match &factor.data {
+                ExpressionFactor::CurrentProgramCounter(_) | ExpressionFactor::Number { .. } => false,
+                ExpressionFactor::ExprParens { inner, .. } => in_expr(&inner.data),
+                ExpressionFactor::FunctionCall { args, .. } => {
+                    args.iter().any(|(arg, _)| in_expr(&arg.data))
+                }
+                ExpressionFactor::IdentifierValue { path, .. } => in_path(&path.data),
+                ExpressionFactor::InterpolatedString(i) => in_string(i),
+            },
+        }
+    }
+    let in_block = |block: &Block| uses_block_labels(&block.inner);
+
+    tokens.iter().any(|token| match token {
+        Token::Align { value, .. } | Token::ProgramCounterDefinition { value, .. } => {
+            in_expr(&value.data)
+        }
+        Token::Assert {
+            value,
+            failure_message,
+            ..
+        } => in_expr(&value.data) || failure_message.as_ref().map(in_string).unwrap_or_default(),
+        Token::Braces { block, .. } => in_block(block),
+        Token::Data { values, .. } => values.iter().any(|(value, _)| in_expr(&value.data)),
+        Token::File { filename, .. } => in_string(filename),
+        Token::If {
+            value, if_, else_, ..
+        } => {
+            in_expr(&value.data)
+                || in_block(if_)
+                || else_.as_ref().map(in_block).unwrap_or_default()
+        }
+        Token::Instruction(i) => i
+            .operand
+            .as_ref()
+            .map(|o| in_expr(&o.expr.data))
+            .unwrap_or_default(),
+        Token::Loop { expr, block, .. } => in_expr(&expr.data) || in_block(block),
+        Token::MacroInvocation { args, .. } | Token::Trace { args, .. } => {
+            args.iter().any(|(arg, _)| in_expr(&arg.data))
+        }
+        Token::Segment { id, block, .. } => {
+            in_expr(&id.data) || block.as_ref().map(in_block).unwrap_or_default()
+        }
+        Token::Text { text, .. } => in_expr(&text.data),
+        Token::Eof(_) | Token::Error(_) => false,
+        // (anything else defines a symbol, so the iterations have a scope of their own anyway)
+        _ => true,
     })
 }
 
